@@ -11,7 +11,8 @@ use std::collections::hash_map::{Drain, Entry};
 pub(crate) struct ChannelSlots<T> {
     slots: HashMap<u16, T>,
     freed_channel_ids: IndexSet<u16>,
-    next_channel_id: u16,
+    // wider than a channel id so that it can step past a channel_max of 65535
+    next_channel_id: u32,
     channel_max: u16,
 }
 
@@ -87,8 +88,8 @@ impl<T> ChannelSlots<T> {
         // First try to grab the next available channel ID we're aware of; this
         // could fail if a user requested a channel ID greater than the ones we've
         // handed out from within this function, so keep looking.
-        while self.next_channel_id <= self.channel_max {
-            let channel_id = self.next_channel_id;
+        while self.next_channel_id <= u32::from(self.channel_max) {
+            let channel_id = self.next_channel_id as u16;
             self.next_channel_id += 1;
             match self.slots.entry(channel_id) {
                 Entry::Occupied(_) => continue,
